@@ -19,9 +19,9 @@ from tools.vlib import Outcome, sx
 from tools.props import c13_gen as G
 
 MANIFEST = {
-    "level_text": "Coq theorems (Properties/C13.v, 10, no axioms) about an executable skeleton of the pipeline in which every hash-based collection (AstCache, used_structs, the requested type set, every dependency set, resolved_types, dependencies) is a list in an explicit, universally quantified order omega which the code sorts by name before use, and in which a declaration carries its content as a function of the source item (field / variant / parameter / channel names in order, an id for the rest of a definition, the payload type of a listener): for all omega, omega' the declarations of every generated file and the content of the two visualisation files (entry points, types with depends-on lists, dependency chains, nodes, edges) are the same lists (C13_order_independent, C13_viz_independent, via isort_perm_invariant); the bindings are the same for all flags and the graph files appear exactly with --visualize-deps (C13_flags); added noise items change nothing and a noise-only file changes at most the order (C13_noise, C13_noise_file); any sequence of source transformations - reorder items of a file, move an item, split a file, merge files, relist, rename (inductive tstep/tsteps) - changes at most the order of declarations, never their content or the set, when no type name is defined twice and no event name is emitted with two payload types (C13_transformations, C13_move), and both exceptions are exhibited by computed witnesses (C13_move_dupdef_refuted, C13_move_dupevent_refuted); the run-time oracle rel on two versions of a file decides exactly same item list / same multiset / different multisets / unparsed (C13_oracle_exact). Tied to the code on every run: each generated project is run through the real binary in 8 (quick) / 32 (thorough) fresh processes with and without --verbose / --visualize-deps and under noise / reorder / move / split / merge transformations; files are compared byte for byte and through the extracted module parser; the model must reproduce, for every run, the declarations of every file in order with their member keys and listener payload types, and the lists of both graph files.",
+    "level_text": "Coq theorems (Properties/C13.v, 21, no axioms) about an executable skeleton of the pipeline in which every hash-based collection (AstCache, used_structs, the requested type set, every dependency set, resolved_types, dependencies) is a list in an explicit, universally quantified order omega which the code sorts by name before use, and in which a declaration carries its content as a function of the source item (field / variant / parameter / channel names in order, an id for the rest of a definition, the payload type of a listener): for all omega, omega' the declarations of every generated file and the content of the two visualisation files (entry points, types with depends-on lists, dependency chains, nodes, edges) are the same lists (C13_order_independent, C13_viz_independent, via isort_perm_invariant); the bindings are the same for all flags and the graph files appear exactly with --visualize-deps (C13_flags); added noise items change nothing (C13_noise) and noise-only files, any number at any position, change nothing at all - equality of every file and of both graph files, no premise (C13_noise_file, C13_noise_files, via monotonicity of ranks in the sorted path list and commutation of filter with the stable sort); any sequence of source transformations - reorder items of a file, move an item, split a file, merge files, relist, rename (inductive tstep/tsteps) - changes at most the order of declarations, never their content or the set, when no type name is defined twice and no event name is emitted with two payload types (C13_transformations, C13_move), and both exceptions are exhibited by computed witnesses (C13_move_dupdef_refuted, C13_move_dupevent_refuted); the run-time oracle rel on two versions of a file decides exactly same item list / same multiset / different multisets / unparsed (C13_oracle_exact). Tied to the code on every run: each generated project is run through the real binary in 8 (quick) / 32 (thorough) fresh processes with and without --verbose / --visualize-deps and under noise / reorder / move / split / merge transformations; files are compared byte for byte and through the extracted module parser; the model must reproduce, for every run, the declarations of every file in order with their member keys and listener payload types, and the lists of both graph files. Round 7: the sorted orders in closed form - the repaired file loop is the stable sort of the files by path, plain types.ts is the used types by name then the Params declarations in path order, commands.ts the wrappers in path order (C13_canonical_order); a text level (Model/C13Text.v) in which the ids of the skeleton are resolved by a content table to the items as written and the files are rendered by the text-level generator models Pipeline.v (tokens of plain types.ts / commands.ts), PipelineZod.v, Events.v, index.ts and the order-bearing lines of both graph files as text: the file text is independent of the hash orders (C13_text_order_independent, C13_viz_text_independent), unchanged by noise items and noise-only files (C13_text_noise, C13_text_noise_file), plain types.ts is its import line followed by one token block per declaration (C13_types_plain_blocks) and source transformations permute the blocks of types.ts / commands.ts without changing a block (C13_text_transformations); the oracle's canonical printer is injective (C13_oracle_printer_injective; the round-6 printer was not and was replaced), so same-items means equal s-expressions of the parsed items (C13_oracle_same_items). Text-level correspondence on every run: the depends-on, chain, node and edge lines of both graph files byte for byte, and the token blocks of every struct interface, Params interface and wrapper of plain types.ts / commands.ts inside the fragment of Pipeline.v against the lexed real files.",
     "design_ref": "DESIGN.md section 5 C13",
-    "level_note": "Not proved / outside the model: the TypeScript text of member types and bodies (the id t_body, e_pay stand for it; byte-level equality is established by the differential run in fresh processes, which is also what would expose a regression of the sorting); comments, whitespace and --verbose output (below the model's input; run only); C13_noise_file is a same-multiset statement (equality would need a monotonicity lemma for ranks under insertion into the sorted path list); C13_oracle_exact speaks about the printed item lists (sx_show of Spec/TsObs.sx_item; injectivity of that printer is not proved, so 'same items' means equal canonical prints). The order of names in the model is numeric; the python side numbers paths in PathBuf (component-wise) order and names in byte order so that it coincides with the code's sort.",
+    "level_note": "Not proved / outside the model after round 7: (1) the text level resolves the ids of the skeleton (t_body, c_name, e_name, e_pay) by a content table k that is universally quantified in the theorems and supplied by the python side at run time (the struct / fn item behind each id); that the skeleton (names, roots, dependency lists) is the abstraction of those items is not proved in Coq - it is the Skeleton class of c13_gen.py, checked by the correspondence of every run. (2) The text-level generator models are the shared Pipeline.v / PipelineZod.v / Events.v: structs only (no enum text), default naming configuration, no type mappings, and Pipeline.v predates C04-2 (ipc::Channel<T> is not a channel there); blocks outside that fragment (enums, mapped names, that spelling) are counted in the evidence (text_level.blocks_outside_fragment) and compared at the level of declaration labels and member keys only. The run-time text correspondence covers plain mode (struct, Params and wrapper token blocks) and the graph-file lines; Zod-mode text and events.ts text are in the model and theorems but are compared with the real files at label level only. The header lines, the command entry-point block and the summary of dependency-graph.txt and the command nodes / param edges of the .dot file carry file paths, line numbers and type strings and are not in the text model (their order is: v_cmds). (3) C13_oracle_same_items reduces same-items to equality of the lists of Spec/TsObs.sx_item values; injectivity of sx_item itself (a nested encoder over ty / ex / tk) is stated as C13_sx_item_injective_full_statement and not proved. (4) Comments, whitespace and --verbose output: below the model's input, run only (byte identity over fresh processes). The order of names in the model is numeric; the python side numbers paths in PathBuf (component-wise) order and names in byte order so that it coincides with the code's sort.",
     "technique": "Rocq/Coq proof over hand-written model + correspondence check (extracted OCaml vs the real CLI binary in fresh processes)"
 }
 
@@ -324,8 +324,68 @@ def parse_viz(txt, dot):
     return {"cmds": cmds, "types": types, "nodes": nodes, "edges": edges, "dot_cmds": dcmds, "chains": chains}
 
 
+# ----------------------------------------------------------------------------- text level (round 7)
+
+def viz_text_lines(txt, dot):
+    """the order-bearing lines of the two graph files, verbatim"""
+    depends, chains, sect, cur = [], [], None, None
+    for line in txt.split("\n"):
+        if "Command Entry Points" in line:
+            sect = "cmd"
+        elif "Discovered Types" in line:
+            sect = "types"
+        elif "Dependency Chains" in line:
+            sect = "chains"
+        elif "Summary:" in line and "\u251c\u2500 " not in line:
+            sect = None
+        elif sect == "types" and line.startswith("\u2022 "):
+            cur = line[2:].split(" (")[0]
+        elif sect == "types" and "depends on: " in line:
+            depends.append([cur, line])
+        elif sect == "chains" and "\u251c\u2500 " in line:
+            chains.append(line)
+    dl = dot.split("\n")
+    return {"depends": depends, "chains": chains, "nodes": [l for l in dl if l.endswith("[color=green];")],
+            "edges": [l for l in dl if re.match(r'\s*"[^"]*" -> "[^"]*";$', l)]}
+
+
+def content_tables(sk, case):
+    """the items behind the ids of the skeleton in the syntax of Model/Pipeline.v, and which of them are inside
+    the fragment that text-level model covers (structs, no type mapping involved)"""
+    mapped = set(k.split("::")[-1] for k in sk.mapped)
+    def names_of(t):
+        return set(projgen.type_names(t))
+    structs, s_ok = [], []
+    for rel, it in sk.bodies:
+        if it["kind"] == "struct" and not it.get("unit"):
+            structs.append([it["name"], projgen.sx_serde(it.get("serde")),
+                            [[f["name"], projgen.sx_type(f["ty"]), projgen.sx_serde(f.get("serde"))] for f in it.get("fields", [])]])
+            s_ok.append(it["name"] not in mapped and not any(names_of(f["ty"]) & mapped for f in it.get("fields", []))
+                        and all(f.get("vis", "pub") == "pub" for f in it.get("fields", [])))
+        else:
+            structs.append(["", [], []])
+            s_ok.append(False)
+    fns = {}
+    for rel in sk.paths:
+        for it in case["files"][rel]:
+            if it["kind"] == "fn" and G.is_command(it):
+                fns.setdefault(it["name"], it)
+    cmds, c_ok = [], []
+    for n in sk.cmds:
+        x = projgen.sx_item(fns[n])
+        cmds.append([x[1], x[2], x[4], x[5], x[6]])
+        tys = [q["ty"] for q in fns[n].get("params", [])] + ([fns[n]["ret"]] if fns[n].get("ret") is not None else [])
+        # Model/Pipeline.v (shared, read-only) predates C04-2: ipc::Channel<T> is not a channel there
+        old_chan = any(q["ty"]["k"] == "path" and q["ty"]["name"] == "Channel" and q["ty"]["segs"] == ["ipc"] for q in fns[n].get("params", []))
+        c_ok.append(not any(names_of(t) & mapped for t in tys) and not fns[n].get("attr_args") and not old_chan)
+    return structs, s_ok, cmds, c_ok
+
+
+TEXT_STATS = {}
+
+
 class Run:
-    __slots__ = ("case", "sk", "mode", "flags", "variant", "res", "labels", "omega", "model", "corr", "why")
+    __slots__ = ("tables", "mout", "case", "sk", "mode", "flags", "variant", "res", "labels", "omega", "model", "corr", "why")
 
 
 def random_omega(run, salt):
@@ -434,6 +494,66 @@ def evaluate(groups, tier):
             r.corr, r.why = False, "visualisation: dot edges %s vs model %s" % (v["edges"], m_edges)
         elif [(int(c[0]), sk.tys[int(c[1]) - 1]) for c in o[4]] != v["chains"]:
             r.corr, r.why = False, "visualisation: dependency chains %s vs model %s" % (v["chains"], o[4])
+    # 2b. text level (round 7): the order-bearing lines of the graph files as text, and the token blocks of plain
+    # types.ts / commands.ts (Model/C13Text.v: Pipeline.v generators applied in the order the skeleton computes)
+    TEXT_STATS.setdefault("viz_text_runs", 0)
+    if vruns:
+        touts = vlib.run_runner("c13-viztext", [sx([r.omega, r.sk.project, r.sk.tys]) for r in vruns])
+        for r, o in zip(vruns, touts):
+            if not r.corr:
+                continue
+            if o and o[0] == "runner-error":
+                raise vlib.BuildError("runner: %s" % o)
+            v = viz_text_lines(r.res["files"][VIZ[0]], r.res["files"].get(VIZ[1], ""))
+            m = {"depends": [list(x) for x in o[0]], "chains": list(o[1]), "nodes": list(o[2]), "edges": list(o[3])}
+            TEXT_STATS["viz_text_runs"] += 1
+            for key in ("depends", "chains", "nodes", "edges"):
+                if m[key] != v[key]:
+                    r.corr, r.why = False, "visualisation text: %s lines %s vs model %s" % (key, v[key][:6], m[key][:6])
+                    break
+    seen, tjobs, truns = set(), [], []
+    for r, o in zip(jruns, outs):
+        if r.mode == "zod" or not r.corr or not o or not o[0]:
+            continue
+        key = (id(r.sk), r.res["files"].get("types.ts"), r.res["files"].get("commands.ts"))
+        if key in seen:
+            continue
+        seen.add(key)
+        r.tables = content_tables(r.sk, r.case)
+        r.mout = o[0][0]
+        tjobs.append(sx([False, r.omega, r.sk.project, r.tables[0], r.tables[2]]))
+        truns.append(r)
+    if truns:
+        mouts = vlib.run_runner("c13-textblocks", tjobs)
+        ftexts = sorted(set(r.res["files"][f] for r in truns for f in ("types.ts", "commands.ts")))
+        fouts = dict(zip(ftexts, vlib.run_runner("c13-fileblocks", [sx(t) for t in ftexts])))
+        for r, mo in zip(truns, mouts):
+            if (mo and mo[0] == "runner-error") or not mo:
+                raise vlib.BuildError("runner: %s" % (mo,))
+            tb, cb = mo[0]
+            structs, s_ok, cmds, c_ok = r.tables
+            tdecl = [d for d in r.mout[0] if d[0] == "type"]
+            wdecl = [d for d in r.mout[1] if d[0] == "wrapper"]
+            oks = [s_ok[int(d[2])] for d in tdecl] + [c_ok[int(d[1]) - 1] for d in wdecl]
+            if len(tb) != len(oks) or len(cb) != len(wdecl):
+                r.corr, r.why = False, "text level: %d type blocks for %d declarations" % (len(tb), len(oks))
+                continue
+            for fname, blocks, flags in (("types.ts", tb, oks), ("commands.ts", cb, [c_ok[int(d[1]) - 1] for d in wdecl])):
+                real = {}
+                for b in fouts[r.res["files"][fname]]:
+                    real.setdefault(json.dumps(b[:4]), b)
+                for b, fl in zip(blocks, flags):
+                    if not b or not fl:
+                        TEXT_STATS["blocks_outside_fragment"] = TEXT_STATS.get("blocks_outside_fragment", 0) + (1 if b else 0)
+                        continue
+                    TEXT_STATS["blocks_compared"] = TEXT_STATS.get("blocks_compared", 0) + 1
+                    rb = real.get(json.dumps(b[:4]))
+                    if rb != b:
+                        r.corr, r.why = False, "text level: %s block %s: model tokens %s, implementation %s" % (
+                            fname, b[2:4], b, rb)
+                        break
+                if not r.corr:
+                    break
     # 3. classes
     sks = []
     for g in groups:
@@ -755,6 +875,7 @@ def run(rep):
     inside = sum(st["in_known_class"] for st in rep.streams.values())
     rep.extra["inside_known_class"] = inside
     rep.extra["outside_every_class"] = rep.outcomes - inside
+    rep.extra["text_level"] = dict(TEXT_STATS)
 
 
 def zip_results(results, groups):
